@@ -1,9 +1,10 @@
 #!/bin/bash
-# tools/run_seeds.sh [tier] : re-evaluates every seeded/<id>/ against the check of its own property
+# tools/run_seeds.sh [tier] [seed ids...] : re-evaluates every seeded/<id>/ against the check of its own property
 # (and the other checks recorded as catching it); prints one row per seed.
-HERE="$(cd "$(dirname "$0")/.." && pwd)"; TIER="${1:-quick}"
+HERE="$(cd "$(dirname "$0")/.." && pwd)"; TIER="${1:-quick}"; shift; ONLY=" $* "
 for d in "$HERE"/seeded/*/; do
   id=$(basename "$d"); prop=${id:0:3}
+  [ "$ONLY" != "  " ] && [[ "$ONLY" != *" $id "* ]] && continue
   ids=$(python3 -c "import json,sys;m=json.load(open('$d/meta.json'));c=m.get('caught_by_quick_checks',[]);print(','.join(dict.fromkeys(['$prop']+c)))")
   o=$("$HERE/tools/seed_eval.sh" "$d" "$ids" "$TIER" 2>&1)
   base=$(echo "$o" | grep -o "missing=[0-9]*" | head -1)
